@@ -246,6 +246,7 @@ class VProc:
         self.thread = None
         self.touched = set()
         self._nmods = -1
+        self.block = None  # (fd, exclusive) while blocked in flock()
 
     def det_bytes(self, n):
         self._rnd += 1
@@ -282,6 +283,32 @@ class Gate:
     def current_owner(self):
         vp = current_vp()
         return vp.vid if vp is not None else None
+
+    def block(self, fd, exclusive):
+        """the calling virtual process blocks in flock(): it is not runnable
+        until the lock can be granted; False outside a virtual process"""
+        vp = current_vp()
+        if vp is None:
+            return False
+        if vp.dead:
+            raise SimCrash()
+        sim = self.sim
+        sim.counters["probe.blocked_on_lock"] += 1
+        vp.block = (fd, exclusive)
+        try:
+            f = sim.yield_point(vp, "flock_wait", "", None)
+        finally:
+            vp.block = None
+        if f is not None and f["kind"] == "kill":
+            if not f.get("_teardown"):
+                sim.count_fault("kill")
+            vp.dead = True
+            raise SimCrash()
+        if f is not None and f["kind"] in ("int", "int_after"):
+            sim.count_fault("interrupt")
+            vp.cmd_faulted = True
+            raise KeyboardInterrupt()
+        return True
 
     def call(self, op, target, thunk, kind, nbytes):
         sim = self.sim
@@ -350,9 +377,13 @@ class Gate:
                 vp.cmd_faulted = True
                 code = fault.get("errno", 5)
                 raise OSError(code, os.strerror(code), tpath)
-            if k == "short":
-                sim.count_fault("short_write")
+            if k in ("short", "short_os"):
+                sim.count_fault("short_write" if k == "short" else
+                                "short_os_write")
                 limit = max(1, int(nbytes * fault.get("frac", 0.5)))
+                limit = min(limit, nbytes - 1)
+                if k == "short_os":
+                    vp.cmd_faulted = True  # this process met an I/O fault
         if limit is not None and nbytes is not None and limit < nbytes:
             sim.counters["partial_writes"] += 1
         vp.touched.add(tpath)
@@ -371,6 +402,10 @@ def fault_applicable(kind, op, nbytes):
     if kind in ("short", "kill_partial"):
         return op in ("write", "write_os") and nbytes is not None and (
             nbytes > 1) and (kind == "kill_partial" or op == "write")
+    if kind == "short_os":
+        # a direct os.write() that succeeds partially (disk or quota filling
+        # up, file size limit): io-fault configuration only
+        return op == "write_os" and nbytes is not None and nbytes > 1
     if kind == "eio":
         return op in ("open", "write", "write_os", "rename", "mkdir",
                       "ftruncate", "unlink", "fsync")
@@ -412,6 +447,7 @@ class Sim:
         self.interleave_events = 0
         self._prio = None
         self.epoch_first = 0
+        self.deadlock = False
 
     # -- bookkeeping
     def probe(self, name, n=1):
@@ -422,6 +458,7 @@ class Sim:
 
     def note_kill(self, vp, op, path):
         self.kills.append((self.step, vp.vid, op, path))
+        self.fs.release_process(vp.vid)
 
     def after_effect(self, vp, op, path):
         if self.invariant is not None and self.violation is None:
@@ -652,9 +689,16 @@ class Sim:
             parked = [v for v in self.vprocs if v.state == PARKED]
             if not parked:
                 return
-            runnable = [v for v in parked if v.wake <= self.now]
+            free = [v for v in parked if v.block is None or
+                    self.fs.lock_grantable(v.block[0], v.block[1], v.vid)]
+            runnable = [v for v in free if v.wake <= self.now]
             if not runnable:
-                self.now = min(v.wake for v in parked)
+                if not free:
+                    # every live process waits for a lock another one holds
+                    self.hang = True
+                    self.deadlock = True
+                    return
+                self.now = min(v.wake for v in free)
                 continue
             self.step += 1
             if self.step > self.step_cap:
@@ -680,6 +724,8 @@ class Sim:
                 self.fired.append((self.step, vp.vid, op, path,
                                    fault["kind"]))
             self._release(vp, fault)
+            if vp.dead:
+                self.fs.release_process(vp.vid)  # the kernel cleans up
             # simulated latency of the operation, a pure function of the step
             self.now += 1e-5 + ((self.step * 2654435761) & 0xffff) / 65536 * 1e-2
 
@@ -733,6 +779,8 @@ class Sim:
                     vp.prompts = []
                     if vp.dead:
                         res["faulted"] = True
+                    # process exit: descriptors closed, locks dropped
+                    self.fs.release_process(vp.vid)
                 if vp.dead:
                     return
         finally:
